@@ -23,7 +23,7 @@ from vf.lang import (
 )
 from vf.props.c01 import ast_signature
 
-KINDS = ["marginal", "marginal", "lognorm", "plate", "mixture", "mixture_all", "twostep", "integrate_var", "integrate_gauss", "moment", "deficient"]
+KINDS = ["marginal", "marginal", "lognorm", "plate", "mixture", "mixture_all", "twostep", "integrate_var", "integrate_gauss", "moment", "deficient", "boundary"]
 
 
 def rspec(name):
@@ -34,7 +34,7 @@ def gen_case(src):
     g = G(src, Opts(gauss=True))
     avail = set(g.sizes)
     kind = g.pick(KINDS)
-    mode = "deficient" if kind == "deficient" else g.pick(["full", "full", "over"])
+    mode = "deficient" if kind in ("deficient", "boundary") else g.pick(["full", "full", "over"])
     leaf = gauss_leaf(g, avail, rank_mode=mode)
     reals = [n for n, sh in leaf[2]]
     ints = [(n, s) for n, s in leaf[1]]
@@ -64,7 +64,15 @@ def gen_case(src):
     ints = sorted(n for n, d in inp.items() if d[0] != "real")
     rv = lambda names: tuple(rspec(n) for n in names)  # noqa: E731
     iv = lambda names: tuple((n, inp[n][0]) for n in names)  # noqa: E731
-    if kind in ("marginal", "deficient"):
+    if kind == "boundary":
+        # the integrated block has exactly rank or rank + 1 dimensions: the last block that must be
+        # integrated exactly, and the first one for which an error is required
+        dim = lambda names: sum(int(np.prod(REAL_POOL[n])) if REAL_POOL[n] else 1 for n in names)  # noqa: E731
+        want = leaf[4] + (1 if g.chance(0.5) else 0)
+        subsets = [list(c) for k in range(1, len(reals) + 1) for c in itertools.combinations(reals, k) if dim(c) == want]
+        sub = g.pick(subsets) if subsets else g.subset(reals, 1, len(reals))
+        node = ("red", "logaddexp", body, rv(sub))
+    elif kind in ("marginal", "deficient"):
         sub = g.subset(reals, 1, len(reals))
         node = ("red", "logaddexp", body, rv(sub))
     elif kind == "lognorm":
@@ -116,6 +124,16 @@ def cases():
 def dense_from_points(fn, shapes):
     """(P, eta, c) of a quadratic function given as a black box over real blocks."""
     return Oracle()._probe_quadratic(fn, shapes)
+
+
+def jitter_gaussians(node):
+    """The same expression with every entry of every Gaussian square-root factor moved by a fixed small amount (at most 0.025)."""
+    if not isinstance(node, tuple):
+        return node
+    if node and node[0] == "gauss":
+        S = tuple(v + 0.05 * (((i + 1) * 0.6180339887498949) % 1.0 - 0.5) for i, v in enumerate(node[6]))
+        return node[:6] + (S,) + node[7:]
+    return tuple(jitter_gaussians(x) for x in node)
 
 
 class C13(Prop):
@@ -180,6 +198,26 @@ class C13(Prop):
             raise Decline("undecided(no closed form)")
         except OutOfDomain:
             raise Decline("oracle-out-of-domain")
+        # A singular block is "not normalizable" by necessity only when the square-root factor has too few columns
+        # for the integrated block; a factor with enough columns that happens to be singular for one batch element
+        # (proportional rows on the value grid) cannot be told from a nearly singular one in floating point.  The two
+        # are separated by jittering every factor: structural deficiency survives the jitter, coincidence does not.
+        if any(v is NN for pt, v in table.values()):
+            jit = jitter_gaussians(node)
+            orc2 = Oracle()
+            for key, (pt, want) in list(table.items()):
+                if want is not NN:
+                    continue
+                try:
+                    orc2.ev(jit, pt)
+                except NotNormalizable:
+                    continue
+                except (Undecided, OutOfDomain):
+                    pass
+                stt.count("coincidentally-singular-block(point skipped)")
+                del table[key]
+            if not table:
+                raise Decline("every point coincidentally singular")
         # an error is required only when no batch element is normalizable
         expect_error = all(v is NN for pt, v in table.values())
         some_nn = any(v is NN for pt, v in table.values())
@@ -191,6 +229,8 @@ class C13(Prop):
                     r = build(node)
             else:
                 r = build(node)
+        except (MemoryError, RecursionError):
+            raise
         except Exception as e:
             if expect_error:
                 stt.count("raised-as-required")
